@@ -42,6 +42,8 @@ CommonLoop::~CommonLoop()
 {
     TBOX_ASSERT(cb_level_ == 0);
     CHECK_DELETE_RESET_OBJ(sp_exit_timer_);
+    //! deleting an exit timer that is still armed defers the release of its record: run that task too
+    cleanupDeferredTasks();
 }
 
 bool CommonLoop::isInLoopThread()
